@@ -296,8 +296,58 @@ fn c03_lone_under_quantifiers(ctx: &mut Ctx) {
     }
 }
 
+/// Documents nested thousands of levels deep (lists in lists, objects in objects) under the fields a
+/// rule reads: evaluation returns — it neither overflows the native stack nor panics. The engine
+/// walks a document only along the rule's paths, never into what it was not asked for.
+fn c03_deep_documents(ctx: &mut Ctx) {
+    let rules = [
+        "detection:\n  A:\n    f: '*admin*'\n  condition: A\ntrue_positives: []\ntrue_negatives: []\n",
+        "detection:\n  A:\n    f: ['a*', '?b', 7]\n    g: x\n  condition: A or not A\ntrue_positives: []\ntrue_negatives: []\n",
+        "detection:\n  A:\n    all(f): ['a*', '*b']\n  B:\n    f:\n      k: v\n  C:\n    str(f): x\n  condition: A or B or C\ntrue_positives: []\ntrue_negatives: []\n",
+        "detection:\n  A:\n    f.k.k: v\n    of(f, 1): [x, y]\n  condition: not A\ntrue_positives: []\ntrue_negatives: []\n",
+    ];
+    for depth in [2000usize, 20000, 100000] {
+        for shape in 0..3 {
+            for text in rules {
+                let label = format!("a document whose field f is nested {} levels deep ({})", depth, ["lists in lists", "objects in objects", "alternating"][shape]);
+                let outcome = ctx.risky(&label, text, || {
+                    let rule = match tau_engine::Rule::from_str(text) { Ok(r) => r, Err(_) => return None };
+                    // built bottom-up in a loop and leaked afterwards: dropping it would recurse in serde_yaml
+                    let mut v = Yaml::String("sysadmin".into());
+                    for i in 0..depth {
+                        v = match (shape, i % 2) {
+                            (0, _) | (2, 0) => Yaml::Sequence(vec![v]),
+                            _ => { let mut m = serde_yaml::Mapping::new(); m.insert(Yaml::String("k".into()), v); Yaml::Mapping(m) }
+                        };
+                    }
+                    let mut doc = serde_yaml::Mapping::new();
+                    doc.insert(Yaml::String("f".into()), v);
+                    doc.insert(Yaml::String("g".into()), Yaml::String("x".into()));
+                    let r = std::panic::catch_unwind(std::panic::AssertUnwindSafe(|| {
+                        let mut out = vec![];
+                        for mask in [0u64, 15] {
+                            let rl = if mask == 0 { rule.clone() } else { rule.clone().optimise(crate::implside::opts(mask)) };
+                            out.push(rl.matches(&doc));
+                        }
+                        out
+                    }));
+                    std::mem::forget(doc);
+                    Some(r.is_ok())
+                });
+                ctx.evaluations += 1;
+                ctx.nontrivial.insert(hash_str(&format!("deep{}{}{}", depth, shape, text)));
+                if outcome == Some(false) {
+                    let ex = Exchange { line: format!("deep {} {}", depth, shape), imp: "PANIC".into(), model: String::new(), agree: true, supported: false };
+                    ctx.violation("oracle", &format!("matching panics on {}", label), &ex, text, true);
+                }
+            }
+        }
+    }
+}
+
 pub fn run_c03(ctx: &mut Ctx, _known: &Known) {
     run_implonly(ctx);
+    c03_deep_documents(ctx);
     c03_multibyte(ctx);
     c03_lone_under_quantifiers(ctx);
     c03_counts_and_printing(ctx);
@@ -314,6 +364,24 @@ pub fn run_c03(ctx: &mut Ctx, _known: &Known) {
         };
         let (ex, parsed) = run_rule_case(ctx, &c, false);
         c03_judge(ctx, &c, &ex, parsed, &format!("bare-condition:{}", cond));
+    }
+    // every kind of bare value as an OPERAND of and / or / not, on either side, plain and inside
+    // parentheses: a load error, or a rule that evaluates (whichever operand the documents make the
+    // solver reach)
+    for v in ["1", "1.5", "0.5", "2.0", ".5", "-1", "0", "int(x)", "flt(x)", "str(x)", "not(x)", "(1.5)", "(int(x))", "1e3", "1.", "true", "null", "'s'"] {
+        for form in ["x and {}", "{} and x", "x or {}", "{} or x", "not {}", "not (x and {}) or x", "x and ({} or x)", "({}) and x", "x and x and {}", "{} or x or x", "x and not {}", "all(x) or {}", "{} and {}"] {
+            let cond = form.replace("{}", v);
+            let c = CaseReq {
+                optimised: false,
+                det: vec![("x".into(), map1y("x", gen::ys("1"))), ("condition".into(), gen::ys(&cond))],
+                tps: vec![map1y("x", gen::ys("1"))],
+                tns: vec![map1y("y", gen::ys("1"))],
+                docs: vec![map1y("x", gen::ys("1")), map1y("x", Yaml::Number(1u64.into())), map1y("y", gen::ys("1")), map1y("x", gen::ys("2"))],
+                masks: (0..16).collect(),
+            };
+            let (ex, parsed) = run_rule_case(ctx, &c, false);
+            c03_judge(ctx, &c, &ex, parsed, &format!("value-operand:{}", cond));
+        }
     }
     for (name, c) in corpus_cases() {
         let (ex, parsed) = run_rule_case(ctx, &c, false);
@@ -435,6 +503,7 @@ fn c13_edits(ctx: &mut Ctx) {
 
 pub fn run_c13(ctx: &mut Ctx, _known: &Known) {
     c13_edits(ctx);
+    c13_path_like_examples(ctx);
     let n = budget(ctx, 2000, 40000);
     for i in 0..n {
         let mut r = case_rng(ctx, i);
@@ -452,61 +521,87 @@ pub fn run_c13(ctx: &mut Ctx, _known: &Known) {
         for _ in 0..ntn {
             c.tns.push(example(&mut r));
         }
-        c.docs = c.tps.iter().chain(c.tns.iter()).filter_map(|d| d.as_mapping().map(|m| Yaml::Mapping(m.clone()))).collect();
-        let (ex, parsed) = run_rule_case(ctx, &c, false);
-        let ry = rule_yaml(&c);
-        if ex.imp.contains("PANIC") {
-            ctx.violation("oracle", &format!("random:{}: validate()/matches() panicked", i), &ex, &ry, true);
-            continue;
-        }
-        let p = match parsed {
-            Some(p) if p.load == "ok" => p,
-            _ => continue,
-        };
-        // oracle: the failing examples validate() names are exactly those whose matches() verdict
-        // is wrong (documents were passed in example order, mapping examples only)
-        for m in &p.masks {
-            let v = verdicts(m);
-            let mut k = 0;
-            let mut tp_fail = vec![];
-            for (j, t) in c.tps.iter().enumerate() {
-                if t.as_mapping().is_some() {
-                    if !v[k] {
-                        tp_fail.push(j);
-                    }
-                    k += 1;
-                } else {
+        c13_judge(ctx, &mut c, &format!("random:{}", i));
+    }
+}
+
+/// validate() against matches() on the rule's own examples, for one rule.
+fn c13_judge(ctx: &mut Ctx, c: &mut CaseReq, label: &str) {
+    c.docs = c.tps.iter().chain(c.tns.iter()).filter_map(|d| d.as_mapping().map(|m| Yaml::Mapping(m.clone()))).collect();
+    let (ex, parsed) = run_rule_case(ctx, &c, false);
+    let ry = rule_yaml(&c);
+    if ex.imp.contains("PANIC") {
+        ctx.violation("oracle", &format!("{}: validate()/matches() panicked", label), &ex, &ry, true);
+        return;
+    }
+    let p = match parsed {
+        Some(p) if p.load == "ok" => p,
+        _ => return,
+    };
+    // oracle: the failing examples validate() names are exactly those whose matches() verdict
+    // is wrong (documents were passed in example order, mapping examples only)
+    for m in &p.masks {
+        let v = verdicts(m);
+        let mut k = 0;
+        let mut tp_fail = vec![];
+        for (j, t) in c.tps.iter().enumerate() {
+            if t.as_mapping().is_some() {
+                if !v[k] {
                     tp_fail.push(j);
                 }
+                k += 1;
+            } else {
+                tp_fail.push(j);
             }
-            let mut tn_fail = vec![];
-            for (j, t) in c.tns.iter().enumerate() {
-                if t.as_mapping().is_some() {
-                    if v[k] {
-                        tn_fail.push(j);
-                    }
-                    k += 1;
-                } else {
+        }
+        let mut tn_fail = vec![];
+        for (j, t) in c.tns.iter().enumerate() {
+            if t.as_mapping().is_some() {
+                if v[k] {
                     tn_fail.push(j);
                 }
-            }
-            let expect = format!("tp{:?}tn{:?}", tp_fail, tn_fail);
-            if m.val != expect {
-                ctx.violation(
-                    "oracle",
-                    &format!("random:{}: mask {}: validate() reports {} but matches() implies {}", i, m.mask, m.val, expect),
-                    &ex,
-                    &ry,
-                    true,
-                );
-                break;
+                k += 1;
+            } else {
+                tn_fail.push(j);
             }
         }
-        if !(c.tps.is_empty() && c.tns.is_empty()) {
-            ctx.nontrivial.insert(hash_str(&ex.line));
+        let expect = format!("tp{:?}tn{:?}", tp_fail, tn_fail);
+        if m.val != expect {
+            ctx.violation(
+                "oracle",
+                &format!("{}: mask {}: validate() reports {} but matches() implies {}", label, m.mask, m.val, expect),
+                &ex,
+                &ry,
+                true,
+            );
+            break;
         }
-        if ctx.samples.len() < 6 {
-            ctx.sample(json!({"rule": ry, "validate": p.masks.iter().map(|m| format!("mask {}: {}", m.mask, m.val)).collect::<Vec<_>>()}));
+    }
+    if !(c.tps.is_empty() && c.tns.is_empty()) {
+        ctx.nontrivial.insert(hash_str(&ex.line));
+    }
+    if ctx.samples.len() < 6 {
+        ctx.sample(json!({"rule": ry, "validate": p.masks.iter().map(|m| format!("mask {}: {}", m.mask, m.val)).collect::<Vec<_>>()}));
+    }
+}
+
+/// Examples whose KEYS look like the paths the rule reads (a flat key `process.name`, `args[0]`, a
+/// key with a trailing dot) next to the nested spelling: validate() resolves a field exactly as
+/// matches() does.
+fn c13_path_like_examples(ctx: &mut Ctx) {
+    let y = |t: &str| -> Yaml { serde_yaml::from_str(t).expect("yaml") };
+    let examples: Vec<Yaml> = vec![
+        y("{process.name: cmd.exe}"), y("{process: {name: cmd.exe}}"), y("{process.name: cmd.exe, process: {name: other}}"), y("{process.name: other, process: {name: cmd.exe}}"),
+        y("{'args[0]': -enc}"), y("{args: [-enc, x]}"), y("{'args[0]': x, args: [-enc]}"), y("{a.b.c: 1, a: {b.c: 1}}"), y("{a: {b: {c: 1}}}"), y("{size: '7'}"), y("{process: [{name: cmd.exe}]}"), y("{}"),
+    ];
+    for (body, cond) in [("process.name: cmd.exe", "A"), ("process.name: cmd.exe", "not A"), ("args[0]: '-enc'", "A"), ("process:\n      name: cmd.exe", "A"), ("a.b.c: 1", "A"), ("a:\n      b.c: 1", "A"), ("int(size): 7\n    process.name: 'cmd*'", "A or not A"), ("all(process.name): ['cmd*', '*.exe']", "A")] {
+        for split in 0..3 {
+            let text = format!("detection:\n  A:\n    {}\n  condition: {}\n", body, cond);
+            let value: Yaml = match serde_yaml::from_str(&text) { Ok(v) => v, Err(_) => continue };
+            let det: Vec<(String, Yaml)> = value.get("detection").and_then(|d| d.as_mapping()).map(|m| m.iter().map(|(k, v)| (k.as_str().unwrap_or("").to_string(), v.clone())).collect()).unwrap_or_default();
+            let (tps, tns): (Vec<Yaml>, Vec<Yaml>) = match split { 0 => (examples.clone(), vec![]), 1 => (vec![], examples.clone()), _ => (examples.iter().step_by(2).cloned().collect(), examples.iter().skip(1).step_by(2).cloned().collect()) };
+            let mut c = CaseReq { optimised: false, det, tps, tns, docs: vec![], masks: vec![0, 15, 2, 9] };
+            c13_judge(ctx, &mut c, &format!("path-like examples `{}` / `{}`", body.replace('\n', " "), cond));
         }
     }
 }
@@ -679,6 +774,10 @@ fn c16_fixed_pairs(ctx: &mut Ctx) {
         ("Data: '*mimikatz*'", vec!["A", "not A"]),
         ("Data: ['*mimikatz*', '?^x']\n    host: ws1", vec!["A", "not A"]),
         ("str(Data): '*mimikatz*'", vec!["A", "not A"]),
+        // a block whose keys share their first segment, over objects and arrays of objects
+        ("conns:\n      dst.ip: 10.0.0.1\n      dst.port: 443", vec!["A", "not A"]),
+        ("conns:\n      args[0]: a\n      args[1]: b", vec!["A", "not A"]),
+        ("conns:\n      dst.ip: 10.0.0.1\n      dst.port: 443\n      dst.zone: dmz\n    host: ws1", vec!["A", "not A"]),
     ];
     let pairs = [
         ("{proc: {}}", "{proc: {pid: 1}}"),
@@ -700,6 +799,12 @@ fn c16_fixed_pairs(ctx: &mut Ctx) {
         ("{Data: {'#text': mimikatz.exe, '#attributes': {Name: x}}, host: ws1}", "{Data: {}, host: ws1}"),
         ("{Data: {text: mimikatz, value: mimikatz, '0': mimikatz}}", "{Data: {other: 1}}"),
         ("{Data: [{'#text': mimikatz}]}", "{Data: [{'#text': x}]}"),
+        ("{conns: [{dst: {ip: 10.0.0.1, port: 443}}]}", "{conns: [{dst: {ip: 10.0.0.1, port: 443}, proto: tcp}]}"),
+        ("{conns: {dst: {ip: 10.0.0.1, port: 443}}}", "{conns: {dst: {ip: 10.0.0.1, port: 443}, proto: tcp, n: 1}}"),
+        ("{conns: [{args: [a, b]}]}", "{conns: [{args: [a, b], pid: 1}]}"),
+        ("{conns: [{dst: {ip: 10.0.0.1, port: 80}}]}", "{conns: [{dst: {ip: 10.0.0.1, port: 80}, proto: tcp, x: 1, y: 2}]}"),
+        ("{conns: [{dst: {ip: 10.0.0.1, port: 443, zone: dmz}}], host: ws1}", "{conns: [{dst: {ip: 10.0.0.1, port: 443, zone: dmz}, a: 1, b: 2, c: 3}], host: ws1}"),
+        ("{conns: [{x: 1}, {dst: {ip: 10.0.0.1, port: 443}}]}", "{conns: [{x: 1, y: 2, z: 3}, {dst: {ip: 10.0.0.1, port: 443}}]}"),
     ];
     for (body, conds) in rules.iter() {
         for cond in conds {
